@@ -31,10 +31,22 @@ def _convert(v):
     return v
 
 
-def xfunc(*args, func=max, check=is_number, convert=None, default=0,
-          _raise=True):
+def _is_number(v, **kw):
+    # Text inside ranges/arrays is not a number (typed text is converted).
+    return not isinstance(v, str) and is_number(v, **kw)
+
+
+def _convert_count_args(v):
+    try:
+        return _convert_args(v)
+    except ValueError:  # Typed text that is not a number is not counted.
+        return v
+
+
+def xfunc(*args, func=max, check=_is_number, convert=None, default=0,
+          _raise=True, parse=_convert_args):
     _raise and raise_errors(args)
-    it = flatten(map(_convert_args, args), check=check)
+    it = flatten(map(parse, args), check=check)
     default = [] if default is None else [default]
     return func(list(map(convert, it) if convert else it) or default)
 
@@ -63,11 +75,12 @@ def xcorrel(arr1, arr2):
 
 FUNCTIONS['CORREL'] = wrap_func(xcorrel)
 FUNCTIONS['COUNT'] = wrap_func(functools.partial(
-    xfunc, func=len, _raise=False, default=None,
-    check=functools.partial(is_number, xl_return=False)
+    xfunc, func=len, _raise=False, default=None, parse=_convert_count_args,
+    check=functools.partial(_is_number, xl_return=False)
 ))
 FUNCTIONS['COUNTA'] = wrap_func(functools.partial(
-    xfunc, check=is_not_empty, func=len, _raise=False, default=None
+    xfunc, check=is_not_empty, func=len, _raise=False, default=None,
+    parse=lambda v: v
 ))
 FUNCTIONS['COUNTBLANK'] = wrap_func(functools.partial(
     xfunc, check=lambda x: (x == '' or x is sh.EMPTY), func=len,
